@@ -20,6 +20,11 @@
             (identifier, any, str, string), never by bare position: the serializer resolves unit variants by name
   shared    DECSCALE + FREEZEMAP (c02), SLICE / VARINT / FIXEDBUF reading primitives (c11), POOLCLEAN (c14: pooled
             scratch buffers come back empty), resolution rules (c07): necessary for round trips
+  NAMEPAIR  ... a decimal is named by what it is written over: over a fixed by the fixed's fullname, over bytes "Decimal"
+            (a decoder that calls both "Decimal" sends the fixed one back into the bytes branch); under a `null` schema
+            nothing is written, under Ok, only for the unit variant that stands for null (shared with C02)
+  DECSTR    what is trimmed is the character '0'; the retried text keeps the dot and what is left of the fraction
+  shared    MAPKIND (c02: step, key, value), DURATION + DECDECODE (c03: what the duration / decimal readers present)
 It does NOT decide value equality of round trips.
 """
 from ..lib import *
